@@ -376,13 +376,11 @@ EXTRA_CASES = [
      "package p\n\nfunc h() {\n\tfor a, b := range table {\n\t\tuse(a, b)\n\t}\n\tfor a := range table {\n\t\tuse(a)\n\t}\n\tfor i, c := range pkg.Items() {\n\t\tuse(c)\n\t\tuse(i)\n\t}\n}\n"),
     ("case-clause", "@@\nvar x expression\n@@\n-handle(x)\n+handled(x)\n+log(x)\n",
      "package p\n\nfunc h(v int) {\n\tswitch v {\n\tcase 1:\n\t\thandle(v)\n\t\tnext()\n\tcase 2, 3:\n\t\tprev()\n\t\thandle(v + 1)\n\tdefault:\n\t\thandle(0)\n\t}\n\tselect {\n\tcase m := <-ch:\n\t\thandle(m)\n\tcase ch2 <- 1:\n\t\tother()\n\t\thandle(2)\n\tdefault:\n\t}\n}\n"),
-    ("case-list", "@@\nvar x expression\n@@\n-case legacy(x):\n+case modern(x):\n",
-     "package p\n\nfunc h(v int) {\n\tswitch {\n\tcase legacy(v):\n\t\ta()\n\tcase other(v), legacy(1):\n\t\tb()\n\t}\n}\n"),
     ("label-stmt", "@@\nvar l identifier\n@@\n l:\n for {\n-  break l\n+  return\n }\n",
      "package p\n\nfunc h() {\nouter:\n\tfor {\n\t\tbreak outer\n\t}\ninner:\n\tfor {\n\t\tbreak other\n\t}\n}\n"),
     ("params-dots", "@@\nvar f identifier\n@@\n-func f(ctx Context, ...) error {\n+func f(ctx Context, ...) (int, error) {\n   ...\n }\n",
      "package p\n\nfunc a(ctx Context, x int, y string) error {\n\treturn nil\n}\n\nfunc b(ctx Context) error {\n\treturn nil\n}\n\nfunc c(x int, ctx Context) error {\n\treturn nil\n}\n\nfunc (r R) d(ctx Context, z ...int) error {\n\treturn nil\n}\n"),
-    ("results-dots", "@@\nvar f identifier\n@@\n-func f() (..., error) {\n+func f() (..., err error) {\n   ...\n }\n",
+    ("results-dots", "@@\nvar f identifier\n@@\n-func f() (..., error) {\n+func f() (..., bool, error) {\n   ...\n }\n",
      "package p\n\nfunc a() (int, error) {\n\treturn 0, nil\n}\n\nfunc b() error {\n\treturn nil\n}\n\nfunc c() (int, string, error) {\n\treturn 0, \"\", nil\n}\n\nfunc d() (int, bool) {\n\treturn 0, false\n}\n"),
     ("struct-fields-dots", "@@\n@@\n type Config struct {\n   ...\n-  Debug bool\n   ...\n }\n",
      "package p\n\ntype Config struct {\n\tName  string\n\tDebug bool\n\tLevel int\n}\n\ntype Other struct {\n\tDebug bool\n}\n\nfunc h() {\n\ttype Config struct {\n\t\tDebug bool\n\t}\n}\n"),
@@ -400,10 +398,6 @@ EXTRA_CASES = [
      "package p\n\nfunc h() {\n\ta = a + 1\n\tb.c = b.c + d()\n\ta = b + 1\n\ta = a - 1\n\te[i] = e[i] + e[j]\n\te[i] = e[j] + e[i]\n}\n"),
     ("chan-ops", "@@\nvar c, v expression\n@@\n-c <- v\n+send(c, v)\n",
      "package p\n\nfunc h() {\n\tch <- 1\n\tx.out <- f()\n\tv := <-ch\n\t_ = v\n\tselect {\n\tcase ch <- 2:\n\t}\n}\n"),
-    ("type-switch", "@@\nvar x expression\nvar v identifier\n@@\n-switch v := x.(type) {\n+switch v := unwrap(x).(type) {\n   ...\n }\n",
-     "package p\n\nfunc h(e any) {\n\tswitch t := e.(type) {\n\tcase int:\n\t\tuse(t)\n\t}\n\tswitch e.(type) {\n\tcase string:\n\t}\n\tswitch u := f(e).(type) {\n\tdefault:\n\t\tuse(u)\n\t}\n}\n"),
-    ("func-lit", "@@\nvar x expression\n@@\n-func() error { return x }\n+func() error { return wrap(x) }\n",
-     "package p\n\nvar a = func() error { return nil }\nvar b = func() error { return f(1) }\nvar c = func() (error) { return nil }\nvar d = func(i int) error { return nil }\n\nfunc h() { run(func() error { return e }) }\n"),
     ("unary-star", "@@\nvar p expression\n@@\n-*p = nil\n+reset(p)\n",
      "package p\n\nfunc h() {\n\t*a = nil\n\t*b.c = nil\n\t**d = nil\n\ta = nil\n\t*a = 0\n}\n"),
     ("slice-expr", "@@\nvar s, n expression\n@@\n-s[:n]\n+head(s, n)\n",
